@@ -105,16 +105,6 @@ def quotedItemsOK : List (Bytes × Option Bytes) → Bool
 `depQuotedOK` (negation: F-C19-deptest-quoted). -/
 def depTextOK (h : Heap) (s : Set) : Bool := quotedItemsOK (depItems h s)
 
-/-- every byte is ASCII. -/
-def isAscii (v : Bytes) : Bool := v.all fun b => decide (b.toNat < 128)
-
-/-- every value that is written quoted is an ASCII string (a limit of the proof of the
-quoted round trip, not a finding class). -/
-def depQuotedAscii (h : Heap) (s : Set) : Bool :=
-  (depItems h s).all fun it => match it.2 with
-    | some v => isAscii v
-    | none => true
-
 /-- no value has to be written quoted (implies `depTextOK`). -/
 def depPlain (h : Heap) (s : Set) : Bool := (depItems h s).all fun it => it.2.isNone
 
